@@ -167,6 +167,29 @@ def Cab.runOld (c : Cab) : List CabOp → Cab
   | [] => c
   | op :: ops => (c.stepOld op).runOld ops
 
+/-! ### `alloc()` when the vector cannot grow
+
+`Token new_token(allocId(), allocPos())`: `allocPos` calls `cells_.push_back(Cell())`, which throws
+`std::bad_alloc` when the reallocation fails (strong guarantee: `cells_` is unchanged).  The two
+argument expressions are indeterminately sequenced, so when the exception leaves `alloc()` the id
+counter has (`idFirst`) or has not been advanced; nothing else was touched.  With a free cell
+(`first_free_` set) no allocation is attempted and `alloc()` cannot fail this way. -/
+
+def Cab.allocThrow (c : Cab) (idFirst : Bool) : Cab := if idFirst then c.allocId.1 else c
+
+/-- histories in which some `alloc()` calls fail with `bad_alloc` -/
+inductive CabOpX where
+  | op (o : CabOp)
+  | allocFail (idFirst : Bool)
+
+def Cab.stepX (c : Cab) : CabOpX → Cab
+  | .op o => c.step o
+  | .allocFail b => c.allocThrow b
+
+def Cab.runX (c : Cab) : List CabOpX → Cab
+  | [] => c
+  | x :: xs => (c.stepX x).runX xs
+
 /-! ## Object pool -/
 
 structure PStat where
@@ -187,6 +210,7 @@ structure Pool where
   ctor     : Nat := 0           -- constructor / destructor runs of T
   dtor     : Nat := 0
   leaked   : Nat := 0           -- objects still constructed when their pool was destroyed
+  thrown   : Nat := 0           -- constructors that exited by an exception (their block is lost: see `allocThrow`)
 deriving Repr, DecidableEq
 
 namespace Pool
@@ -224,7 +248,15 @@ def free (p : Pool) (b : Nat) : Pool := p.dtorEnter.freeB b
 environment -/
 def renew (p : Pool) (keep : Nat) : Pool :=
   { keep := keep, nextBlk := p.nextBlk, released := p.parked ++ p.released, ctor := p.ctor, dtor := p.dtor,
-    leaked := p.leaked }
+    leaked := p.leaked, thrown := p.thrown }
+
+/-- `alloc()` whose constructor THROWS (object_pool.hpp:122-139 has no handler): the block was
+taken (unlinked from the chain, `free_number_` decremented, or malloc'ed) before the constructor
+ran; the exception leaves `alloc()` before the statistics; nobody owns the block any more — it is
+neither parked, nor handed to `::free`, nor in use: it is lost (a memory leak, never an alias) -/
+def allocThrow (p : Pool) : Pool :=
+  let q := p.allocA.1.ctorEnter
+  { q with thrown := q.thrown + 1 }
 
 end Pool
 
@@ -276,6 +308,7 @@ inductive PoolOp where
   | renew (keep : Nat)          -- frees every live object through the old pool first
   | drop (keep : Nat)           -- destroys the pool while objects are live: `~ObjectPool()` runs no
                                 -- destructor and returns only the parked blocks; the objects are abandoned
+  | athrow (h v : Nat)          -- `alloc(v)` for the empty slot `h` between calls; the constructor throws
 deriving Repr, DecidableEq
 
 /-- blocks holding a completely constructed object -/
@@ -338,6 +371,11 @@ def PoolSys.step (s : PoolSys) : PoolOp → PoolSys
       if s.stack ≠ [] then s else
       { s with pool := { s.pool.renew k with leaked := s.pool.leaked + s.liveBlocks.length },
                slots := List.replicate s.slots.length none }
+  | .athrow h _ =>
+      if s.stack ≠ [] then s else
+      match s.slots[h]? with
+      | some none => { s with pool := s.pool.allocThrow }      -- the slot stays empty: `alloc` returned nothing
+      | _ => s
 
 def PoolSys.run (s : PoolSys) : List PoolOp → PoolSys
   | [] => s
@@ -357,7 +395,20 @@ structure FdSys where
   handles  : List (Option Nat) := []    -- `detail_` of each Fd object
   closeLog : List (Nat × Bool) := []    -- every close performed: (descriptor, via close_func?)
   nextRes  : Nat := 0                   -- descriptors are numbered in the order they were opened
+  flags    : List (Bool × Bool) := []   -- kernel state of descriptor r: (O_NONBLOCK of its open file description, FD_CLOEXEC)
 deriving Repr, DecidableEq
+
+/-- a system call a member function makes on `detail_->fd` (the descriptor number it hands to the kernel) -/
+inductive Sys where
+  | getfl (fd : Int)
+  | setfl (fd : Int) (nb : Bool)
+  | getfd (fd : Int)
+  | setfd (fd : Int) (cx : Bool)
+  | rw (kind : Nat) (fd : Int)          -- 0 read · 1 readv · 2 write · 3 writev
+deriving Repr, DecidableEq
+
+def Sys.fd : Sys → Int
+  | .getfl f | .setfl f _ | .getfd f | .setfd f _ | .rw _ f => f
 
 def nFdSlots : Nat := 8
 
@@ -397,7 +448,8 @@ def del (s : FdSys) (h : Nat) : FdSys := (s.release (s.detailOf h)).setH h none
 def ctorFd (s : FdSys) (h : Nat) (withFn : Bool) : FdSys :=
   { s with details := s.details ++ [{ fd := (s.nextRes : Int), ref := 1, hasFn := withFn }],
            handles := s.handles.set h (some s.details.length),
-           nextRes := s.nextRes + 1 }
+           nextRes := s.nextRes + 1,
+           flags := s.flags ++ [(false, false)] }    -- a new open file description: blocking, inherited by exec
 
 /-- `Fd(fd)` / `Fd(fd, close_func)` with a NEGATIVE number `-(k+1)` (what a failed `open`/`socket`
 returned): a record is created all the same; it never closes anything -/
@@ -454,6 +506,85 @@ def get (s : FdSys) (h : Nat) : Int :=
 /-- `isNull()` -/
 def isNull (s : FdSys) (h : Nat) : Bool := s.get h == -1
 
+/-! ### the members that talk to the kernel: `Open`, `read/readv/write/writev`, `setNonBlock`,
+`isNonBlock`, `setCloseOnExec` (fd.cpp:103-203).  The kernel is modelled as far as the property needs:
+a descriptor number is *open* from the `open`/`dup` that produced it until the one `close` of it; every
+descriptor has its own open file description with an O_NONBLOCK status flag and its own FD_CLOEXEC
+descriptor flag; `fcntl` on a number that is not open fails with -1 (EBADF).  A call on a number the
+model has logged as closed is the dangling use the property forbids (the real kernel may have handed
+the number out again): `C08_fd_no_use_after_close` shows no member function ever makes one. -/
+
+/-- is descriptor number `fd` open in the kernel? -/
+def kOpen (s : FdSys) (fd : Int) : Bool :=
+  decide (0 ≤ fd) && decide (fd.toNat < s.nextRes) && !(s.closeLog.any (·.1 == fd.toNat))
+
+/-- `(O_NONBLOCK, FD_CLOEXEC)` of an open descriptor; `none` = `fcntl` returns -1 -/
+def kFlags (s : FdSys) (fd : Int) : Option (Bool × Bool) :=
+  if s.kOpen fd then s.flags[fd.toNat]? else none
+
+def kSet (s : FdSys) (fd : Int) (v : Bool × Bool) : FdSys := { s with flags := s.flags.set fd.toNat v }
+
+/-- the number a member function hands to the kernel: `none` = `detail_ == nullptr`, it returns
+before any call; otherwise `detail_->fd` (which is -1 once ANY copy has called `close()`) -/
+def target (s : FdSys) (h : Nat) : Option Int :=
+  match s.detailOf h with
+  | none => none
+  | some d => match s.details[d]? with
+      | none => none
+      | some det => some det.fd
+
+/-- `read / readv / write / writev`: `-1` without a call on an empty handle, otherwise exactly one
+call on `detail_->fd` whose result is returned unchanged.  `ans` = what the kernel answers for an open
+descriptor (a count, or -1 for EINTR/EAGAIN/EIO/…: an oracle); for a number that is not open it answers -1 -/
+def io (s : FdSys) (h kind : Nat) (ans : Int) : Int × List Sys :=
+  match s.target h with
+  | none => (-1, [])
+  | some fd => (if s.kOpen fd then ans else -1, [.rw kind fd])
+
+/-- `setNonBlock(enable)`: F_GETFL, then F_SETFL only when the flag word changes.  When F_GETFL fails
+`old_flags` is -1 (all bits set): `-1 | O_NONBLOCK = -1` (no second call), `-1 & ~O_NONBLOCK ≠ -1`
+(a second call, which fails as well and is logged) -/
+def setNonBlock (s : FdSys) (h : Nat) (en : Bool) : FdSys × List Sys :=
+  match s.target h with
+  | none => (s, [])
+  | some fd =>
+      match s.kFlags fd with
+      | none => (s, if en then [.getfl fd] else [.getfl fd, .setfl fd false])
+      | some (nb, cx) =>
+          if nb = en then (s, [.getfl fd]) else (s.kSet fd (en, cx), [.getfl fd, .setfl fd en])
+
+/-- `isNonBlock()`: `false` on an empty handle; `(flags & O_NONBLOCK) != 0`, which is TRUE when
+F_GETFL failed (flags = -1) -/
+def isNonBlock (s : FdSys) (h : Nat) : Bool × List Sys :=
+  match s.target h with
+  | none => (false, [])
+  | some fd =>
+      match s.kFlags fd with
+      | none => (true, [.getfl fd])
+      | some (nb, _) => (nb, [.getfl fd])
+
+/-- `setCloseOnExec()` (after patches/C08-05): F_GETFD, then F_SETFD when FD_CLOEXEC was not set;
+`-1 | FD_CLOEXEC = -1`: no second call when F_GETFD failed -/
+def setCloexec (s : FdSys) (h : Nat) : FdSys × List Sys :=
+  match s.target h with
+  | none => (s, [])
+  | some fd =>
+      match s.kFlags fd with
+      | none => (s, [.getfd fd])
+      | some (nb, cx) =>
+          if cx then (s, [.getfd fd]) else (s.kSet fd (nb, true), [.getfd fd, .setfd fd true])
+
+/-- `setCloseOnExec()` as it stood before C08-05: the new DESCRIPTOR flag word (= 1) was written
+with F_SETFL, i.e. as the STATUS flags: O_NONBLOCK is cleared and FD_CLOEXEC stays off -/
+def setCloexecOld (s : FdSys) (h : Nat) : FdSys × List Sys :=
+  match s.target h with
+  | none => (s, [])
+  | some fd =>
+      match s.kFlags fd with
+      | none => (s, [.getfd fd])
+      | some (_, cx) =>
+          if cx then (s, [.getfd fd]) else (s.kSet fd (false, cx), [.getfd fd, .setfl fd false])
+
 end FdSys
 
 inductive FdOp where
@@ -467,9 +598,15 @@ inductive FdOp where
   | swap (a b : Nat)
   | reset (h : Nat)
   | close (h : Nat)
+  | openFile (h : Nat) (ok : Bool)       -- destroy, move-construct from `Fd::Open(…)`: `Fd(fd)` when `::open` succeeded, `Fd()` when it failed
+  | io (h kind : Nat) (ans : Int)        -- read / readv / write / writev with the kernel's answer
+  | setNonBlock (h : Nat) (en : Bool)
+  | isNonBlock (h : Nat)
+  | setCloexec (h : Nat)
 deriving Repr, DecidableEq
 
 def FdOp.ok : FdOp → Bool
+  | .openFile h _ | .io h _ _ | .setNonBlock h _ | .isNonBlock h | .setCloexec h => h < nFdSlots
   | .fresh h | .reset h | .close h | .opn h _ | .opnNeg h _ _ => h < nFdSlots
   | .copyCtor d s | .moveCtor d s => d < nFdSlots ∧ s < nFdSlots ∧ d ≠ s
   | .copyAssign d s | .moveAssign d s | .swap d s => d < nFdSlots ∧ s < nFdSlots
@@ -485,6 +622,19 @@ def FdSys.step (s : FdSys) : FdOp → FdSys
   | .swap a b => s.swap a b
   | .reset h => s.reset h
   | .close h => s.close h
+  | .openFile h ok => if ok then (s.del h).ctorFd h false else s.del h
+  | .io _ _ _ => s
+  | .setNonBlock h en => (s.setNonBlock h en).1
+  | .isNonBlock _ => s
+  | .setCloexec h => (s.setCloexec h).1
+
+/-- the system calls the operation makes on `detail_->fd` (closes are in `closeLog`) -/
+def FdSys.calls (s : FdSys) : FdOp → List Sys
+  | .io h k a => (s.io h k a).2
+  | .setNonBlock h en => (s.setNonBlock h en).2
+  | .isNonBlock h => (s.isNonBlock h).2
+  | .setCloexec h => (s.setCloexec h).2
+  | _ => []
 
 def FdSys.run (s : FdSys) : List FdOp → FdSys
   | [] => s
